@@ -127,3 +127,67 @@ contract(f"{NV}::NaiveForecaster._predict_last_window", "C11,C12", cases=NV_CASE
                 "aggregator: the obligation is about WHICH observations are in the column it is given",
                 "cutoff may lie anywhere in the remembered series, so windows shorter than window_length_ (in-sample forecasts "
                 "near the start) are covered"])
+
+
+# ----------------------------------------------------------------------------- NaiveForecaster.fit: parameter validation and fitted window
+from contracts.C01_split import sym_series as _sym_series     # noqa: E402
+
+
+def _nvfit_inputs(B, case):
+    I = B.I
+    st, wl_kind, sp_kind = case.split("|")
+    ok, cls = I.mod_global(I.src.module("sktime.forecasting.naive"), "NaiveForecaster")
+    wl = None if wl_kind == "nowl" else B.int("window_length")
+    sp = {"sp1": 1, "spint": B.int("sp"), "spbool": True, "spfloat": B.real("sp")}[sp_kind]
+    obj = I.instantiate(cls, [], {"strategy": st, "window_length": wl, "sp": sp})
+    y = _sym_series(B, "y", nonempty=True)
+    return {"self": obj, "y": y, "X": None, "fh": None}
+
+
+def _nvfit_bad(A):
+    s = A.self.attrs
+    st, wl, sp = s["strategy"], s["window_length"], s["sp"]
+    n = Z(A.y.index.len)
+    bad = []
+    sp_int = ops.is_intlike(sp) and not isinstance(sp, bool)
+    if not sp_int:
+        return True                                   # seasonal periodicity must be an integer (not a bool, not a float)
+    bad.append(Z(sp) < 1)
+    if wl is not None:
+        bad.append(Z(wl) < 1)
+    if st == "mean" and wl is not None:
+        bad.append(And(Z(sp) != 1, Z(wl) < Z(sp)))
+    if st == "drift" and wl is not None:
+        bad.append(Z(wl) == 1)
+    if st not in ("last", "mean", "drift"):
+        return True
+    # the fitted window must fit into the training series
+    if st == "last":
+        w_ = z3.If(Z(sp) == 1, 1, Z(sp))
+    else:
+        w_ = n if wl is None else Z(wl)
+    bad.append(w_ > n)
+    return Or(*bad)
+
+
+def _nvfit_post(A, r):
+    s = A.self.attrs
+    st, wl, sp = s["strategy"], s["window_length"], s["sp"]
+    n = Z(A.y.index.len)
+    if st == "last":
+        w_ = z3.If(Z(sp) == 1, 1, Z(sp))
+    else:
+        w_ = n if wl is None else Z(wl)
+    conds = [r is A.self, s.get("_is_fitted") is True, Eq(s["window_length_"], ops.simp(w_))]
+    if st == "mean" or (st == "last" and not (isinstance(sp, int) and sp == 1)):
+        conds.append(Implies(Z(sp) != 1 if st == "last" else True, Eq(s.get("sp_", sp), sp)))
+    return And(*conds)
+
+
+contract(f"{NV}::NaiveForecaster.fit", "C11,C20", cases=[f"{st}|{w}|{p}" for st in ("last", "mean", "drift", "bogus") for w in ("nowl", "wl")
+                                                          for p in ("sp1", "spint", "spbool", "spfloat")],
+         inputs=_nvfit_inputs, raises=[("ValueError", _nvfit_bad)],
+         ensures=[("fitted-window-is-sp-/-window_length-/-the-whole-series", _nvfit_post)],
+         frame=lambda A: [A.y],
+         notes=["parameters are validated whatever the strategy uses: sp an integer >= 1 (bool / float rejected), window_length None or an "
+                "integer >= 1; mean: window_length >= sp; drift: window_length != 1; the fitted window must not exceed the series"])
